@@ -17,7 +17,8 @@ EXTENDS CppLibCalls
 CONSTANTS
   SigChoices(_),   \* SigChoices(lib): signatures that may be declared next
   Pick(_),         \* Pick(S): the argument combinations offered at one step (S itself, or a random sample in simulation)
-  Mode,            \* "single": one signature, canonical objects, boundary tuples;  "seq": call sequences
+  Mode,            \* "single": one signature, canonical objects, boundary tuples;  "ovl": the same for one overload
+                   \* set (several signatures under one name);  "seq": call sequences
   FullCross,       \* single mode: besides the covering diagonal, every combination of boundary values (<= 2 parameters)
   MaxSigs,         \* signatures per library
   MaxVariants,     \* wrapper variants per library (seq: each must be called MinCalls times)
@@ -30,8 +31,11 @@ vars == <<lib, heap, script, phase, seen>>
 
 NObj == Len(heap)
 Live(o) == o \in 1..NObj /\ heap[o].live
-Post == [o \in 1..NObj |-> [live |-> heap[o].live, cls |-> heap[o].cls, st |-> heap[o].st, bst |-> heap[o].bst]]
+\* Read: what every object shows through its published accessors (state of the K0 part, of the KB part, payload)
+PostOf(h) == [o \in 1..Len(h) |-> [live |-> h[o].live, cls |-> h[o].cls, st |-> h[o].st, bst |-> h[o].bst, tg |-> h[o].tg]]
+Post == PostOf(heap)
 
+SingleLike == Mode \in {"single", "ovl"}
 AllVariants == UNION {Variants(s) : s \in lib}
 NVariants(l) == LET RECURSIVE Sum(_)
                     Sum(S) == IF S = {} THEN 0 ELSE LET x == CHOOSE x \in S : TRUE IN x.nd + 1 + Sum(S \ {x})
@@ -72,6 +76,8 @@ StartBuild ==
   /\ phase = "decl" /\ lib # {}
   \* seq mode: libraries are filled up (simulation would otherwise stop declaring half of the time)
   /\ (Mode = "seq" => Cardinality(lib) = MaxSigs \/ NVariants(lib) >= MaxVariants - 1)
+  \* ovl mode: the overload set is complete (nothing more can be declared)
+  /\ (Mode = "ovl" => Cardinality(lib) >= 2 /\ ~\E s \in SigChoices(lib) : s \notin lib /\ HeaderOK(lib \cup {s}))
   /\ phase' = "build" /\ UNCHANGED <<lib, heap, script, seen>>
 
 ---------------------------------------------------------------------------
@@ -109,8 +115,8 @@ Combos(w) ==
       Diag == {<<ts[((i - 1) % Len(ts)) + 1],
                  [j \in 1..n |-> LET d == DomSeq(s.ps[j]) IN d[((i - 1 + Off(i, j)) % Len(d)) + 1]]>> : i \in 1..(2 * M)}
   IN IF Len(ts) = 0 \/ \E j \in 1..n : Len(DomSeq(s.ps[j])) = 0 THEN {}
-     ELSE IF Mode = "single" /\ (~FullCross \/ n > 2) THEN Diag
-     ELSE IF Mode = "single" THEN Diag \cup {<<ts[1], a>> : a \in Tuples(s.ps, n)}     \* every pair of boundary values
+     ELSE IF SingleLike /\ (~FullCross \/ n > 2) THEN Diag
+     ELSE IF SingleLike THEN Diag \cup {<<ts[1], a>> : a \in Tuples(s.ps, n)}     \* every pair of boundary values
      ELSE {<<o, a>> : o \in SeqToSet(ts), a \in Tuples(s.ps, n)}
 
 \* seq mode: call what has been called least (so that every variant gets its MinCalls)
@@ -124,12 +130,12 @@ ConstructWith(c, w, args) ==
       h2 == TouchArgs(s.ps, ea, h1, 1)
   IN /\ heap' = h2
      /\ script' = Append(script, [op |-> "new", obj |-> NObj + 1, cls |-> c, sig |-> s, k |-> w.k, args |-> args,
-                                  post |-> [o \in 1..Len(h2) |-> [live |-> h2[o].live, cls |-> h2[o].cls, st |-> h2[o].st, bst |-> h2[o].bst]]])
+                                  post |-> PostOf(h2)])
 
 Construct ==
   /\ phase \in {"build", "run"} /\ NObj < MaxHeap
   /\ \E c \in Classes : \E w \in CtorVariants(c) :
-       /\ IF Mode = "single" /\ phase = "build"
+       /\ IF SingleLike /\ phase = "build"
             THEN NObj < PlanSize /\ c = PlanCls(NObj + 1) /\ w.sig = BaseCtor(c)
             ELSE TRUE
        \* seq, build phase: do not waste the three initial objects
@@ -146,7 +152,7 @@ Construct ==
 
 StartRun ==
   /\ phase = "build" /\ Unmet(heap) = {}
-  /\ (Mode = "single" => NObj = PlanSize)
+  /\ (SingleLike => NObj = PlanSize)
   /\ phase' = "run"
   /\ UNCHANGED <<lib, heap, script, seen>>
 
@@ -157,13 +163,11 @@ Copy ==
        /\ heap[o].live
        /\ heap' = Append(heap, heap[o])
        /\ script' = Append(script, [op |-> "copy", obj |-> NObj + 1, from |-> o, cls |-> heap[o].cls,
-                                    post |-> Append(Post, [live |-> TRUE, cls |-> heap[o].cls, st |-> heap[o].st, bst |-> heap[o].bst])])
+                                    post |-> PostOf(Append(heap, heap[o]))])
   /\ UNCHANGED <<lib, phase, seen>>
 
 ---------------------------------------------------------------------------
 (* 3. calls *)
-PostOf(h) == [o \in 1..Len(h) |-> [live |-> h[o].live, cls |-> h[o].cls, st |-> h[o].st, bst |-> h[o].bst]]
-
 CallOrdinary(w, o, args) ==
   LET s == w.sig
       ea == EffArgs(w, args)
